@@ -13,7 +13,7 @@ Require Import OV.Fusion.Field OV.Fusion.Norm OV.Fusion.Rotary OV.Fusion.RotaryP
                OV.Fusion.Attention OV.Fusion.AttentionProofs.
 Import ListNotations.
 
-(* ---- 1a. SDPA.check, shape part (ready/C19_04) ------------------------------------------------------------------------ *)
+(* ---- 1a. SDPA.check, shape part (fix 9ed3615) ------------------------------------------------------------------------ *)
 (* repaired: every accepted match can be lowered (sdpa_via_mha accepts it, with a static head count): the pipeline cannot
    return a model containing the intermediate ai.onnxruntime._fusion::SDPA op *)
 Theorem C19_sdpa_check_fixed_lowerable : forall kb q k v m, sdpa_check true kb q k v m = true ->
@@ -36,7 +36,7 @@ Example C19_sdpa_check_fires : sdpa_check true false (Some [-2; 4; -3; 8]%Z) (So
   /\ sdpa_check false true (Some [1; 2; 3; 4]%Z) (Some [1; 2; 3; 4]%Z) (Some [1; 2; 3; 4]%Z) (Some (Some [3; 1; 3; 3]%Z)) = true.
 Proof. repeat split; vm_compute; reflexivity. Qed.
 
-(* ---- 1b. cos/sin cache rows (ready/C19_05) ----------------------------------------------------------------------------- *)
+(* ---- 1b. cos/sin cache rows (fix 48e3d56) ----------------------------------------------------------------------------- *)
 Theorem C19_cache_rows_fixed : forall ids S, rotary_cache_ok (cache_rows true ids S) ids S = true.
 Proof. exact cache_rows_fixed. Qed.
 Print Assumptions C19_cache_rows_fixed.
@@ -53,7 +53,7 @@ Theorem C19_cache_rows_cover_ids : forall g ids S p, In p ids -> p <= cache_rows
 Proof. exact cache_rows_cover_ids. Qed.
 Print Assumptions C19_cache_rows_cover_ids.
 
-(* ---- 1c. RotaryEmbedding-23 caches (ready/C19_07) ------------------------------------------------------------------------ *)
+(* ---- 1c. RotaryEmbedding-23 caches (fix c0398a5) ------------------------------------------------------------------------ *)
 Theorem C19_rope23_expand_fixed : forall freqs xb fb_rt xb_rt,
   (0 < xb_rt)%Z -> rope23_pattern_ok fb_rt xb_rt = true ->
   (forall fb a b, freqs = Some [fb; a; b] -> same_dim fb xb = true -> fb_rt = xb_rt) ->
